@@ -137,6 +137,12 @@ def serve_stream(segs, max_header, max_body, chunk_size, override=None, decompre
             assert len(seg) > 0
             s.feed(bytes(seg))
             await quiesce(loop)
+            # level-triggered readiness: a segment larger than read_chunk_size (or the remaining target)
+            # stays readable until it has been drained
+            for _ in range(64):
+                if not s.incoming or s.closed() or not s.notify_read():
+                    break
+                await quiesce(loop)
         closed_before = s.closed()
         if eof:
             s.feed(EOF)
@@ -425,6 +431,26 @@ def mutate(rng, parts, kind):
         put_header("host", b"Host: " + rng.choice([b"x", b"y", b""]))
     elif kind == "hdr":
         put_header("hdr", rng.choice(HDR_BAD), where=rng.choice([2, idx("end")[0]]) if len(parts) > 2 else None)
+    elif kind == "extra-cr":
+        # extra CRs before the LF of a header line / CR-only lines inside the block / a bare CR at the end of a value:
+        # only ONE CR belongs to the terminator, the rest is an illegal character in the field
+        eols = [i for i, (s_, _) in enumerate(parts) if s_ == "eol" and i > 0 and parts[i - 1][0] in ("cl", "te", "host", "hdr", "conn")]
+        r = rng.random()
+        if r < 0.6 and eols:
+            j = rng.choice(eols)
+            parts[j] = ("eol", rng.choice([b"\r\r\n", b"\r\r\r\n", b"\r\r\n", b"\r \r\n"]))
+        elif r < 0.8:
+            ends = idx("end")
+            pos = rng.choice([2, ends[0]]) if len(parts) > 2 else ends[0]
+            parts[pos:pos] = [("hdr", rng.choice([b"\r", b"\r\r", b"\r\r\r"])), ("eol", rng.choice([CRLF, b"\n"]))]
+        else:
+            sites = [i for i, (s_, _) in enumerate(parts) if s_ in ("cl", "te", "host", "hdr", "conn")]
+            if not sites:
+                return None
+            j = rng.choice(sites)
+            parts[j] = (parts[j][0], parts[j][1] + b"\r")
+            if j + 1 < len(parts) and parts[j + 1][0] == "eol":
+                parts[j + 1] = ("eol", rng.choice([CRLF, b"\n"]))
     elif kind == "body-short":
         i = idx("body") + idx("cdata")
         if not i:
@@ -458,7 +484,7 @@ def mutate(rng, parts, kind):
     return parts
 
 
-MUTATIONS = ["cl", "cl", "cl-dup-unequal", "cl+te", "cl+te", "te", "te", "te-dup", "csize", "csize", "csize-off", "ccrlf",
+MUTATIONS = ["extra-cr", "extra-cr", "extra-cr", "cl", "cl", "cl-dup-unequal", "cl+te", "cl+te", "te", "te", "te-dup", "csize", "csize", "csize-off", "ccrlf",
              "cterm", "cterm", "trailer", "line", "line", "host", "host", "host-dup", "hdr", "body-short", "body-long",
              "bytes", "bytes"]
 
@@ -579,6 +605,15 @@ def corpus_cases():
     out.append(mk([b"GET / HTTP/1.1\r\nHost: a:" + b"1" * 4300 + b"\r\n\r\n"], mh=4999, kind="corpus-host-port-4300"))
     # was a genuine defect (uncaught ValueError from int() of the port); fixed in /repo by deca566
     out.append(mk([OVERFLOW_HOST], mh=4999, kind="corpus-host-port-4301"))
+    # extra CR before the line terminator (only `\r?\n$` is stripped): refused, and the pipelined request behind it is never dispatched
+    follow = b"GET /smuggled HTTP/1.1\r\nHost: a\r\n\r\n"
+    out.append(mk([b"POST / HTTP/1.1\r\nHost: a\r\nContent-Length: 3\r\r\n\r\nabc" + follow], kind="corpus-extra-cr-cl"))
+    out.append(mk([b"POST / HTTP/1.1\r\nHost: a\r\nTransfer-Encoding: chunked\r\r\r\n\r\n0\r\n\r\n" + follow], kind="corpus-extra-cr-te"))
+    out.append(mk([b"GET / HTTP/1.1\r\nHost: a\r\r\n\r\n" + follow], kind="corpus-extra-cr-host"))
+    out.append(mk([b"GET / HTTP/1.1\r\nHost: a\r\n\r\r\nX: y\r\n\r\n" + follow], kind="corpus-cr-only-line"))
+    out.append(mk([b"GET / HTTP/1.1\r\n\r\r\nHost: a\r\n\r\n" + follow], kind="corpus-cr-only-line-first"))
+    out.append(mk([b"GET / HTTP/1.1\r\nHost: a\r\nX: v\r\r\n", b"\r\n" + follow], kind="corpus-extra-cr-x"))
+    out.append(mk([b"GET / HTTP/1.1\r\r\nHost: a\r\n\r\n" + follow], kind="corpus-extra-cr-request-line-is-tolerated"))
     # Expect: 100-continue -- interim response before the body, also when the framing is then refused
     out.append(mk([b"POST / HTTP/1.1\r\nHost: a\r\nExpect: 100-continue\r\nContent-Length: 3\r\n\r\n", b"abc"], kind="corpus-expect"))
     out.append(mk([b"POST / HTTP/1.1\r\nHost: a\r\nExpect: 100-continue\r\nContent-Length: 3\r\nTransfer-Encoding: chunked\r\n\r\n"], kind="corpus-expect-then-400"))
